@@ -34,7 +34,68 @@ def hmc_expander(prog, ci):
     return ex
 
 
+def _slot_follows_helper(prog):
+    """A bound method of a helper object kept in a slot (`self.kinetic_energy = self.mass.kinetic_energy`) belongs to THAT helper:
+    every method that replaces the helper (`self.mass = ...`, estimate_mass) re-binds the slot afterwards, or the chain keeps
+    evaluating the old helper - the kinetic energy of the accept test is then not the one the momenta are drawn under.  Read on
+    the class as written (receiver may be `self` or the object `load` builds)."""
+    raw = prog.as_written()
+    ci = raw.cls("HamiltonianChain")
+    methods = {}
+    for c in reversed(raw.mro(ci)):
+        methods.update(c.methods)
+    ex = ast.parse("class C:\n def __init__(self):\n  self.h = H()\n  self.f = self.h.m\n def use(self):\n  return self.f(1)\n"
+                   " def swap(self):\n  self.h = H()\n").body[0]
+    if not _stale_slots({n.name: n for n in ex.body})[0]:
+        raise AnalysisError("slot-follows-helper lost its positive example")
+    bad, slots = _stale_slots(methods)
+    return struct_ob("slot-follows-helper", qual(ci, ci.methods.get("__init__")) + "{as written}", not bad, "; ".join(bad[:2]),
+                     ci.module.relpath, ci.node.lineno, slots={"slots": sorted(slots)}, tier="E", nontrivial=True)
+
+
+def _stale_slots(methods):
+    called = {n.func.attr for fn in methods.values() for n in ast.walk(fn)
+              if isinstance(n, ast.Call) and isinstance(n.func, ast.Attribute) and isinstance(n.func.value, ast.Name)}
+    slots = {}                                   # slot attribute -> helper attribute
+    for fn in methods.values():
+        for st in ast.walk(fn):
+            if isinstance(st, ast.Assign) and len(st.targets) == 1 and isinstance(st.targets[0], ast.Attribute) and isinstance(st.targets[0].value, ast.Name):
+                v = st.value
+                if isinstance(v, ast.Attribute) and isinstance(v.value, ast.Attribute) and isinstance(v.value.value, ast.Name) \
+                        and v.value.value.id == st.targets[0].value.id and st.targets[0].attr in called:
+                    slots[st.targets[0].attr] = v.value.attr
+    bad = []
+    for mname, fn in methods.items():
+        for st in ast.walk(fn):
+            if not (isinstance(st, ast.Assign) and any(isinstance(t, ast.Attribute) and isinstance(t.value, ast.Name) for t in st.targets)):
+                continue
+            for t in st.targets:
+                if not (isinstance(t, ast.Attribute) and isinstance(t.value, ast.Name)):
+                    continue
+                for slot, helper in slots.items():
+                    if t.attr != helper:
+                        continue
+                    rebound = any(isinstance(s2, ast.Assign) and s2.lineno > st.lineno and any(
+                        isinstance(t2, ast.Attribute) and isinstance(t2.value, ast.Name) and t2.value.id == t.value.id and t2.attr == slot
+                        for t2 in s2.targets) for s2 in ast.walk(fn))
+                    if not rebound:
+                        bad.append(f"{mname} (line {st.lineno}) replaces {t.value.id}.{helper} but leaves {t.value.id}.{slot}, a bound method of the old "
+                                   f"{helper} object, in place")
+    return bad, slots
+
+
 def run(prog, tier):
+    early = [_slot_follows_helper(prog)]
+    try:
+        obs, floors, meta = _run_main(prog, tier)
+    except AnalysisError:
+        if any(not o.ok for o in early):
+            return early, {}, {"explanation": "a method slot keeps a replaced helper object; remaining rules not evaluated"}
+        raise
+    return early + obs, floors, meta
+
+
+def _run_main(prog, tier):
     # the estimated gradient can only approximate the true one where the log-density is defined: every probe of the finite
     # difference stays inside the bounds - the clause C07 shares with C04, decided there
     from .common import borrow
